@@ -525,3 +525,36 @@ class WsWriteProgress(Contract):
         # known finding: an expedited-size download (declared size 1..4, not forced to segmented) written in pieces
         "expedited-in-pieces": lambda s: (s.pre["blen"] is not None) and (s.pre["blen"] < s.pre["size"]),
     }
+
+
+@contract
+class WsCloseAfterFailure(Contract):
+    """history: a write() of a segmented download fails (abort received, no response, unexpected response), then the
+    stream is closed as a `with` block or BufferedWriter does: the transfer is over, close() emits no further request
+    frame (a closing segment after the abort would be illegal for the protocol step, and makes a server that still holds
+    the partial data commit it)"""
+    target = "canopen.sdo.client:WritableStream.close"
+    id = "WsCloseAfterFailure"
+    functions = ("canopen.sdo.client:WritableStream.write",)
+    props = ("C01", "C07")
+    exits = ("return", "raise:SdoAbortedError")
+
+    def setup(self, w, case):
+        ws = mk_ws(w, False)
+        w.assume(Not(w.pre["done"]))
+        b = w.lbytes("b", 1, (1 << 32) - 1)
+        p = w.pre
+        if p["size"] is not None:
+            w.assume(compare("<=", binop("+", p["pos"], S.blen(b)), p["size"]))
+        w.pre.update(b=b)
+        return Call(("func", "env.drivers", "write_then_close"), [ws, b])
+
+    @staticmethod
+    def ok(s):
+        k = [i for i, e in enumerate(s.ev) if e[0] == "write-failed"]
+        if not k:
+            return True                  # the write went through: WsWriteSegment / WsClose speak about that
+        after = [e for e in s.ev[k[0] + 1:] if e[0] == "request"]
+        return s.returned and len(after) == 0
+
+    ensures = {"no-request-frame-after-a-failed-write": lambda s: WsCloseAfterFailure.ok(s)}
